@@ -4,6 +4,10 @@
   (`Model/Fermi.lean`: a map over the blocks negating those whose sector carries the sign −1), for dicts
   with unique keys, under an encoding `enc : Sector → Key` of sectors as abstract dict keys that is
   injective on the sectors that occur.  Also: `binaryBlockwise` commutes with such an encoding.
+
+  Last part: the `_map_blocks` script (`S.mapBlocks`, with the sign dict `S.mapPhases` of the repaired
+  library: only the entries of stored blocks are re-keyed) IS `Arr.mapBlocks` at the level of contents
+  (`mapBlocks_rep`); `squeeze` / `expand_dims` are `_map_blocks` followed by slot assignments.
 -/
 import SymmModel.Proofs.Heap3Value
 import SymmModel.Model.Fermi
@@ -364,4 +368,259 @@ theorem psSem_rep [Neg R] (hneg : ∀ v, I tNeg [v] = Blk.negK v) {B : Bufs} {c 
   exact syncSD_enc enc A hinj hb hp hpn
 
 end rep
+/-! ### `_map_blocks`: the heap script against `Arr.mapBlocks` -/
+
+/-- value-level meaning of the `_map_blocks` script: a new block dict of kernel results under the
+    re-keyed sectors; the sign dict (if the object has one) becomes `S.mapPhases` of the OLD block dict -/
+theorem mapBlocks_pure (fk : Key → Key) (tag : Nat) (c : Content) (B : Bufs) :
+    (S.mapBlocks fk tag).pure (c, B) =
+      ({ c with blocks := (buildDictP B (c.blocks.map fun e => (fk e.1, .kern tag [e.2.toNat]))).2,
+                phases := c.phases.map (S.mapPhases fk c.blocks) },
+       (buildDictP B (c.blocks.map fun e => (fk e.1, .kern tag [e.2.toNat]))).1) := by
+  obtain ⟨ci, cc, cb, cp, co⟩ := c
+  cases cp <;> simp [S.mapBlocks, Script.pure, Act.pure, modifyP, newPd]
+
+theorem dict_set_eq_sd (l : Dict) (k : Key) (v : Val) : Dict.set l k v = SD.set l k v := by
+  induction l with
+  | nil => rfl
+  | cons e r ih =>
+    obtain ⟨k', v'⟩ := e
+    simp only [Dict.set, SD.set, ih]
+
+section sem
+variable {V : Type} (I : Nat → List V → V) (d : V)
+
+theorem buildEntriesP_ext (B : Bufs) (es : List (Key × BufSrc)) : ∃ X, (buildEntriesP B es).1 = B ++ X := by
+  induction es generalizing B with
+  | nil => exact ⟨[], by simp [buildEntriesP]⟩
+  | cons e r ih =>
+    obtain ⟨k, src⟩ := e
+    cases src with
+    | old b => simpa [buildEntriesP] using ih B
+    | kern tag args =>
+      obtain ⟨X, hX⟩ := ih (B ++ [(tag, args)])
+      exact ⟨(tag, args) :: X, by simp [buildEntriesP, hX]⟩
+
+/-- the entries `_map_blocks` builds denote the old blocks under the re-keyed sectors, each passed
+    through the kernel -/
+theorem mapEntries_sem (fk : Key → Key) (tag : Nat) (bd : Dict) (B : Bufs) (hok : DictOK B.length bd) :
+    semDict I d (buildEntriesP B (bd.map fun e => (fk e.1, .kern tag [e.2.toNat]))).1
+        (buildEntriesP B (bd.map fun e => (fk e.1, .kern tag [e.2.toNat]))).2 =
+      (semDict I d B bd).map fun e => (fk e.1, I tag [e.2]) := by
+  induction bd generalizing B with
+  | nil => rfl
+  | cons e r ih =>
+    obtain ⟨k, b⟩ := e
+    have hb : b.toNat < B.length := hok (k, b) (List.mem_cons_self ..)
+    have hr : DictOK (B ++ [(tag, [b.toNat])]).length r :=
+      DictOK.mono (fun e he => hok e (List.mem_cons_of_mem _ he)) (by simp)
+    have hr0 : DictOK B.length r := fun e he => hok e (List.mem_cons_of_mem _ he)
+    have ih' := ih (B ++ [(tag, [b.toNat])]) hr
+    obtain ⟨X, hX⟩ := buildEntriesP_ext (B ++ [(tag, [b.toNat])])
+      (r.map fun e => (fk e.1, BufSrc.kern tag [e.2.toNat]))
+    simp only [List.map_cons, buildEntriesP]
+    simp only [semDict, mapV, List.map_cons] at ih' ⊢
+    rw [ih']
+    congr 1
+    · rw [hX]
+      have h1 : B.length < (B ++ [(tag, [b.toNat])]).length := by simp
+      have : ((B.length : Int)).toNat = B.length := by simp
+      rw [this, look_append_lt I d _ X h1, look_new]
+      simp
+    · have := semDict_append I d B [(tag, [b.toNat])] hr0
+      simp only [semDict, mapV] at this
+      rw [this]
+
+theorem mapV_foldl_set (g : Val → V) (es : Dict) (acc : Dict) :
+    mapV g (es.foldl (fun a e => Dict.set a e.1 e.2) acc) =
+      (mapV g es).foldl (fun a e => SD.set a e.1 e.2) (mapV g acc) := by
+  induction es generalizing acc with
+  | nil => rfl
+  | cons e r ih =>
+    simp only [List.foldl_cons, mapV, List.map_cons] at ih ⊢
+    rw [ih]
+    have := mapV_set g acc e.1 e.2
+    simp only [mapV] at this
+    rw [this]
+
+end sem
+
+section enc
+variable (enc : Sector → Key) {V : Type}
+
+/-- `ainsert` (`d[k] = v` of the value model) is `SD.set` under an encoding injective on the keys -/
+theorem ainsert_encB {S : List Sector} (hinj : InjOn enc S) (acc : List (Sector × V)) (k : Sector) (v : V)
+    (ha : ∀ e ∈ acc, e.1 ∈ S) (hk : k ∈ S) :
+    encB enc (ainsert acc k v) = SD.set (encB enc acc) (enc k) v ∧ ∀ e ∈ ainsert acc k v, e.1 ∈ S := by
+  induction acc with
+  | nil =>
+    refine ⟨rfl, ?_⟩
+    intro e he
+    simp only [ainsert, List.mem_singleton] at he
+    subst he; exact hk
+  | cons a r ih =>
+    obtain ⟨t, w⟩ := a
+    have ht : t ∈ S := ha (t, w) (List.mem_cons_self ..)
+    have hr : ∀ e ∈ r, e.1 ∈ S := fun e he => ha e (List.mem_cons_of_mem _ he)
+    have hb : (enc t == enc k) = (t == k) := by
+      by_cases h : t = k
+      · simp [h]
+      · have : enc t ≠ enc k := fun e => h (hinj t ht k hk e)
+        rw [beq_eq_false_iff_ne.mpr this, beq_eq_false_iff_ne.mpr h]
+    obtain ⟨ih1, ih2⟩ := ih hr
+    by_cases h : (t == k) = true
+    · have hk' : t = k := by simpa using h
+      subst hk'
+      refine ⟨by simp [encB, ainsert, SD.set], ?_⟩
+      intro e he
+      simp only [ainsert, beq_self_eq_true, if_true, List.mem_cons] at he
+      rcases he with rfl | he
+      · exact ht
+      · exact hr e he
+    · have h' : (t == k) = false := by simpa using h
+      refine ⟨?_, ?_⟩
+      · simp only [encB, ainsert, h', Bool.false_eq_true, if_false, List.map_cons, SD.set, hb]
+        simp only [encB] at ih1
+        rw [ih1]
+      · intro e he
+        simp only [ainsert, h', Bool.false_eq_true, if_false, List.mem_cons] at he
+        rcases he with rfl | he
+        · exact ht
+        · exact ih2 e he
+
+/-- re-keying: the `set`-fold over the encoded, re-keyed entries is the encoded `adict` of the
+    re-keyed entries -/
+theorem rekey_encB {S : List Sector} (hinj : InjOn enc S) (fs : Sector → Sector) (fk : Key → Key) (g : V → V)
+    (Q : List (Sector × V)) (hfs : ∀ e ∈ Q, fs e.1 ∈ S) (hfk : ∀ e ∈ Q, fk (enc e.1) = enc (fs e.1)) :
+    ((encB enc Q).map fun e => (fk e.1, g e.2)).foldl (fun a e => SD.set a e.1 e.2) [] =
+      encB enc (adict (Q.map fun e => (fs e.1, g e.2))) := by
+  suffices H : ∀ (acc : List (Sector × V)), (∀ e ∈ acc, e.1 ∈ S) →
+      ((encB enc Q).map fun e => (fk e.1, g e.2)).foldl (fun a e => SD.set a e.1 e.2) (encB enc acc) =
+        encB enc ((Q.map fun e => (fs e.1, g e.2)).foldl (fun a p => ainsert a p.1 p.2) acc) by
+    simpa [adict, encB] using H [] (by simp)
+  induction Q with
+  | nil => intro acc _; rfl
+  | cons q r ih =>
+    intro acc ha
+    obtain ⟨s, p⟩ := q
+    have h1 := hfs (s, p) (List.mem_cons_self ..)
+    have h2 := hfk (s, p) (List.mem_cons_self ..)
+    obtain ⟨e1, e2⟩ := ainsert_encB enc hinj acc (fs s) (g p) ha h1
+    simp only [encB, List.map_cons, List.foldl_cons] at *
+    rw [h2, ← e1]
+    exact ih (fun e he => hfs e (List.mem_cons_of_mem _ he)) (fun e he => hfk e (List.mem_cons_of_mem _ he)) _ e2
+
+end enc
+
+section rep2
+variable {R : Type} (enc : Sector → Key) (I : Nat → List (Blk R) → Blk R) (d : Blk R)
+
+/-- membership in the heap block dict = the sector is stored in the value model -/
+theorem has_rep {B : Bufs} {c : Content} {A : Arr R} (rep : Rep enc I d B c A) {Ss : List Sector}
+    (hinj : InjOn enc Ss) (hb : ∀ e ∈ A.blocks, e.1 ∈ Ss) {s : Sector} (hs : s ∈ Ss) :
+    Dict.has c.blocks (enc s) = (alookup A.blocks s).isSome := by
+  rw [← has_mapV (fun v => look I d B v.toNat) c.blocks (enc s)]
+  have := rep.blocks
+  simp only [semDict] at this
+  rw [this, sd_has_iff, alookup_enc enc hinj A.blocks hb hs]
+
+/-- **the sign dict `_map_blocks` builds is the sign table of `Arr.mapBlocks`** (fermionic): only the
+    entries of stored blocks are re-keyed.  The sectors of stale entries must be encoded injectively
+    (to be told apart from stored ones) but nothing is asked of their images under `fs`. -/
+theorem mapPhases_rep (fs : Sector → Sector) (fb : Blk R → Blk R) (fk : Key → Key) {B : Bufs} {c : Content}
+    {A : Arr R} (rep : Rep enc I d B c A) (hf : A.fermi = true) {Ss : List Sector} (hinj : InjOn enc Ss)
+    (hb : ∀ e ∈ A.blocks, e.1 ∈ Ss) (hbs : ∀ e ∈ A.blocks, fs e.1 ∈ Ss)
+    (hbk : ∀ e ∈ A.blocks, fk (enc e.1) = enc (fs e.1)) (hp : ∀ e ∈ A.phases, e.1 ∈ Ss) :
+    S.mapPhases fk c.blocks (c.phases.getD []) = (A.mapBlocks fs fb).phases.map fun e => (enc e.1, e.2) := by
+  rw [rep.phases]
+  have hfilt : (A.phases.map fun e => (enc e.1, e.2)).filter (fun e => Dict.has c.blocks e.1) =
+      encB enc (A.phases.filter fun e => (alookup A.blocks e.1).isSome) := by
+    simp only [encB, List.filter_map]
+    congr 1
+    apply List.filter_congr
+    intro e he
+    exact has_rep enc I d rep hinj hb (hp e he)
+  have hQ : ∀ e ∈ A.phases.filter (fun e => (alookup A.blocks e.1).isSome), ∃ b, (e.1, b) ∈ A.blocks := by
+    intro e he
+    have h2 := (List.mem_filter.mp he).2
+    obtain ⟨b, hb'⟩ := Option.isSome_iff_exists.mp h2
+    exact ⟨b, alookup_mem hb'⟩
+  have key := rekey_encB enc hinj fs fk (fun p : Int => p)
+    (A.phases.filter fun e => (alookup A.blocks e.1).isSome)
+    (fun e he => by obtain ⟨b, hm⟩ := hQ e he; exact hbs _ hm)
+    (fun e he => by obtain ⟨b, hm⟩ := hQ e he; exact hbk _ hm)
+  simp only [S.mapPhases, Dict.mapKeys, hfilt]
+  simp only [Arr.mapBlocks, hf, if_true]
+  simp only [List.foldl_map] at key
+  have hset : (fun (a : Dict) (e : Key × Val) => Dict.set a (fk e.1) e.2) =
+      (fun (a : Dict) (e : Key × Val) => SD.set a (fk e.1) e.2) := by
+    funext a e; exact dict_set_eq_sd a _ _
+  rw [hset]
+  exact key
+
+/-- **`_map_blocks` on the heap is `Arr.mapBlocks`** at the level of contents: if `c` (buffers `B`)
+    represents `A`, the kernel `tag` denotes `fb` and `fk` is `fs` on encoded sectors, then the content
+    the script computes represents `A.mapBlocks fs fb` — block dict AND sign dict, stale sign entries
+    (sectors without a stored block) being discarded on both sides. -/
+theorem mapBlocks_rep (fs : Sector → Sector) (fb : Blk R → Blk R) (fk : Key → Key) (tag : Nat)
+    (hI : ∀ b, I tag [b] = fb b) {B : Bufs} {c : Content} {A : Arr R} (rep : Rep enc I d B c A)
+    (hok : DictOK B.length c.blocks) (hf : A.fermi = c.phases.isSome) {Ss : List Sector} (hinj : InjOn enc Ss)
+    (hb : ∀ e ∈ A.blocks, e.1 ∈ Ss) (hbs : ∀ e ∈ A.blocks, fs e.1 ∈ Ss)
+    (hbk : ∀ e ∈ A.blocks, fk (enc e.1) = enc (fs e.1)) (hp : ∀ e ∈ A.phases, e.1 ∈ Ss) :
+    Rep enc I d ((S.mapBlocks fk tag).pure (c, B)).2 ((S.mapBlocks fk tag).pure (c, B)).1
+      (A.mapBlocks fs fb) := by
+  rw [mapBlocks_pure]
+  refine ⟨?_, ?_⟩
+  · simp only [buildDictP]
+    have h0 := mapV_foldl_set (fun v => look I d
+        (buildEntriesP B (c.blocks.map fun e => (fk e.1, BufSrc.kern tag [e.2.toNat]))).1 v.toNat)
+      (buildEntriesP B (c.blocks.map fun e => (fk e.1, BufSrc.kern tag [e.2.toNat]))).2 []
+    have h1 := mapEntries_sem I d fk tag c.blocks B hok
+    simp only [semDict] at h0 h1 ⊢
+    rw [h0, h1]
+    have h2 := rep.blocks
+    simp only [semDict] at h2
+    rw [h2]
+    have key := rekey_encB enc hinj fs fk fb A.blocks hbs hbk
+    simp only [Arr.mapBlocks]
+    rw [← key]
+    simp only [mapV, List.map_nil, encB, List.map_map, Function.comp_def, hI]
+  · cases hph : c.phases with
+    | none =>
+      have h2 := rep.phases
+      rw [hph] at hf h2
+      have hf' : A.fermi = false := by simpa using hf
+      simp only [Option.map_none, Option.getD_none, Arr.mapBlocks, hf', Bool.false_eq_true, if_false] at h2 ⊢
+      exact h2
+    | some p =>
+      rw [hph] at hf
+      have hf' : A.fermi = true := by simpa using hf
+      have := mapPhases_rep enc I d fs fb fk rep hf' hinj hb hbs hbk hp
+      rw [hph] at this
+      simpa using this
+
+end rep2
+
+theorem Script.pure_seq (s q : Script) (st : PState) : (s.seq q).pure st = q.pure (s.pure st) := by
+  induction s generalizing st with
+  | nil => rfl
+  | acts as k ih => simp only [Script.seq, Script.pure]; exact ih _
+  | read f ih => simp only [Script.seq, Script.pure]; exact ih _ _ _
+
+/-- `squeeze` = `_map_blocks`, then the index table -/
+theorem squeeze_pure (fk : Key → Key) (fi : Nat → Nat) (st : PState) :
+    (S.squeeze fk fi).pure st =
+      ({ ((S.mapBlocks fk tSlice).pure st).1 with indices := fi ((S.mapBlocks fk tSlice).pure st).1.indices },
+       ((S.mapBlocks fk tSlice).pure st).2) := by
+  simp [S.squeeze, Script.pure_seq, Script.pure, Act.pure, modifyP, newPd]
+
+/-- `expand_dims` = `_map_blocks`, then the index table and the charge -/
+theorem expandDims_pure (fk : Key → Key) (fi : Nat → Nat) (fc : Int → Int) (st : PState) :
+    (S.expandDims fk fi fc).pure st =
+      ({ ((S.mapBlocks fk tSlice).pure st).1 with
+           indices := fi ((S.mapBlocks fk tSlice).pure st).1.indices,
+           charge := fc ((S.mapBlocks fk tSlice).pure st).1.charge },
+       ((S.mapBlocks fk tSlice).pure st).2) := by
+  simp [S.expandDims, Script.pure_seq, Script.pure, Act.pure, modifyP, newPd]
+
 end SymmModel.Heap
